@@ -1226,16 +1226,21 @@ def run(tier):
     for i in range(0, len(ss), sstep):
         mem.append(("spell", "spell-%d" % i, REPEAT_SCHEMA, ss[i:i + sstep], tier))
     # wave 5: naming axis (full product on the spell seeds), import axis, character axis
-    for i in range(0, len(ss), sstep):
-        mem.append(("named", "named-%d" % i, REPEAT_SCHEMA, ss[i:i + sstep], tier))
-    ims = import_seeds(tier)
+    # Both tiers explore the wave-5 axes with the same bounds: the deeper variant (seeds one line longer on each of the
+    # three axes) was measured at about 80 minutes on 16 cores and is not registered.
+    t5 = "quick"
+    ss5 = ss if tier == "quick" else spell_seeds(t5)
+    for i in range(0, len(ss5), 3):
+        mem.append(("named", "named-%d" % i, REPEAT_SCHEMA, ss5[i:i + 3], t5))
+    ims = import_seeds(t5)
     istep = 12
     for i in range(0, len(ims), istep):
-        mem.append(("import", "import-%d" % i, IMPORT_SCHEMA, ims[i:i + istep], tier))
-    cms = char_members(tier)
+        mem.append(("import", "import-%d" % i, IMPORT_SCHEMA, ims[i:i + istep], t5))
+    cms = char_members(t5)
     for c, counts in cms:
-        mem.append(("char", "char-U+%04X" % c, REPEAT_SCHEMA, c, counts, tier))
-    quick = tier == "quick"
+        mem.append(("char", "char-U+%04X" % c, REPEAT_SCHEMA, c, counts, t5))
+    quick = True        # for the wave-5 text below
+    ss_all, ss = ss, ss5
     wave5 = (
         "NAMING AXIS (under which name a resource is known; 'the URL of the including resource' is the URL it was "
         "named / referred to by, references are resolved against it lexically): the outer file is named to "
@@ -1271,6 +1276,7 @@ def run(tier):
            len(CHARS), "1..2" if quick else "1..3", list(CHAR_ALPHABET), len(REP_CHARS), 3 if quick else 4,
            "one-line texts like every other seed, longer ones with every cut set of one or two ranges" if quick else
            "texts up to two lines like every other seed, longer ones with every cut set of one or two ranges"))
+    ss = ss_all
     run = core.Run(
         "C06", tier, "model_checking",
         rule="seeds = accepted and rejected corpus texts (3..%d lines, capped per schema) and %d %%define texts "
